@@ -379,6 +379,7 @@ class Models:
             lens = st.meta.setdefault("oplens", {})
             if key not in lens:
                 lens[key] = ex.new_int(st, "usize", "len").t
+                st.pc.append(lens[key] <= (1 << 63) - 1)   # slice lengths never exceed isize::MAX
             return VInt(lens[key], "usize")
         raise Unsupported("PtrMetadata of " + type(tgt).__name__)
 
@@ -932,6 +933,8 @@ def m_map_insert(ex, st, fr, c, a, d, r):
     shape_store(m, k, a[2])
     if m.vshape == ("sym", "H") and m.ksort == "K":
         st.event("intent", op="insert", key=k, hash=a[2].t)
+    elif m.ksort == "K" and m.kind == "btree":
+        st.event("index-mutation", op="insert", key=k)
     return old
 
 
@@ -942,6 +945,8 @@ def m_map_remove(ex, st, fr, c, a, d, r):
     m.present = z3.Store(m.present, k, z3.BoolVal(False))
     if m.vshape == ("sym", "H") and m.ksort == "K":
         st.event("intent", op="remove", key=k)
+    elif m.ksort == "K" and m.kind == "btree":
+        st.event("index-mutation", op="remove", key=k)
     return old
 
 
